@@ -90,7 +90,7 @@ JOBS.update({
         jobs=procs_jobs("C04", ["mix=wait,faults=0", "mix=wait,faults=1", "mix=wait,faults=2", "mix=res,faults=2", "mix=all,faults=2"], 900000, 24000000, crowd_mix="mix=wait,faults=2,crowd=1", extra=[("mix=wait,faults=2,storm=1", 60000), ("mix=wait,faults=0,storm=1", 30000)]),
         wall_quick=55, wall_thorough=1200,
         assumptions=["interrupts may be lost (the property does not promise delivery) but never duplicated, late or stale",
-                     "a quarter of the resumes carry the success code, as in the tutorials (at most one per process and instant); timers never carry the value 0",
+                     "a quarter of the resumes carry the success code, as in the tutorials (at most one per process and instant); one timer in eight carries the value 0 as well: it ends a yield with success, and vanishes when it hits a hold or a wait (which goes on waiting)",
                      "once an interrupt or a preemption notice has been delivered, every timer that was armed before the interrupt was sent (the preemption happened) is dead and must never fire; only a timer that somebody else armed on the process between that moment and the delivery, in the same instant, may or may not fire (the library clears it in one case and keeps it in the other)",
                      "a return with a non-success value must match exactly one undelivered cause with that unique value, due at exactly that instant"]),
     "C05": dict(level="fault_enumeration", rule=PROCS_RULE,
